@@ -108,7 +108,7 @@ def check(ctx):
     ov["process_fork"] = S.o_process_fork
     Is = new_interp(prog, overrides=ov, extra_models={"read": m_read_errpipe})
     Is.hooks_call.append(errpipe_hook)
-    rs = Is.run(Fs, [S.process_start_entry(prog, Fs)])
+    rs = Is.run(Fs, S.process_start_entry(prog, Fs))
     ctx.stats("E-ABS", Is.stats)
     exit_obligations(ctx, Fs, rs, "process_start")
     protocol(ctx, rs, Fs, "process_start")
